@@ -374,6 +374,11 @@ func (ef *Filter) filterField(ctx context.Context, v reflect.Value, filterOverri
 	if v == reflect.ValueOf(nil) {
 		return nil
 	}
+	if v.Kind() != reflect.Struct {
+		// only a struct has fields to walk (a Taggable payload may be of any
+		// kind: a slice, a named string): fail rather than panic
+		return fmt.Errorf("%s: unable to filter the fields of a %s: %w", op, v.Kind(), ErrInvalidParameter)
+	}
 
 	opts := getOpts(opt...)
 	// the caller has applied the tags of v itself (withIgnoreTaggable): strip
